@@ -167,7 +167,16 @@ func (d *DKG) StoreDeal(participant string, deal *dkg.Deal) {
 
 func (d *DKG) ProcessDeals() ([]*dkg.Response, error) {
 	responses := make([]*dkg.Response, 0)
+
+	// d.deals is a map: process the deals in a fixed order (by dealer index), so that
+	// a replayed round signs the same responses with the same nonces of the seeded suite.
+	deals := make([]*dkg.Deal, 0, len(d.deals))
 	for _, deal := range d.deals {
+		deals = append(deals, deal)
+	}
+	sort.Slice(deals, func(i, j int) bool { return deals[i].Index < deals[j].Index })
+
+	for _, deal := range deals {
 		if deal.Index == uint32(d.ParticipantID) {
 			continue
 		}
